@@ -446,12 +446,14 @@ class ConcSpec(object):
             return a is b
         if isinstance(a, (bool, _np.bool_)) and isinstance(b, (bool, _np.bool_)):
             return bool(a) == bool(b)
+        # single-precision intermediates (the code stores some arrays as float32): rounding is outside A1
+        tol = 1e-6 if (isinstance(a, _np.float32) or isinstance(b, _np.float32)) else RTOL
         a, b = float(a), float(b)
         if math.isnan(a) or math.isnan(b):
             return math.isnan(a) and math.isnan(b)
         if math.isinf(a) or math.isinf(b):
             return a == b
-        return abs(a - b) <= RTOL * max(1.0, abs(a), abs(b))
+        return abs(a - b) <= tol * max(1.0, abs(a), abs(b))
 
     def sqrt(self, x):
         with _np.errstate(all="ignore"):
@@ -518,7 +520,7 @@ class ConcSpec(object):
             return _np.log(arr)
 
     def same_array(self, a, b):
-        a, b = _np.asarray(a, float), _np.asarray(b, float)
+        a, b = _np.asarray(a), _np.asarray(b)
         if a.shape != b.shape:
             return False
         return all(self.same(x, y) for x, y in zip(a.flatten(), b.flatten()))
@@ -555,10 +557,11 @@ def _kendall(a, b):
 CONCRETE_FUNCTIONALS2 = {"spearmanr": _spearman, "kendalltau": _kendall}
 
 CONCRETE_FUNCTIONALS = {
-    "median": lambda a, axis=None: _np.median(a, axis=axis),
-    "min": lambda a, axis=None: _np.min(a, axis=axis),
-    "max": lambda a, axis=None: _np.max(a, axis=axis),
-    "percentile": lambda a, q, axis=None: _np.percentile(a, q, axis=axis),
+    "median": lambda a: _np.median(a),
+    "min": lambda a: _np.min(a),
+    "max": lambda a: _np.max(a),
+    "percentile": lambda a, q: _np.percentile(a, q),
+    "quantile": lambda a, q, method="linear": _np.quantile(a, q, method=method),
 }
 
 
@@ -624,6 +627,21 @@ def _error_stub(message):
 
 def _warning_stub(message):
     return None
+
+
+def _raise_confirmed(o, E, G, out):
+    """does the real code (no shims) raise the same kind of exception on a concrete input of this path?"""
+    for attempt in range(3):
+        try:
+            vals = concretize(E, G, z3.BoolVal(False), max_size=3 + attempt)
+            rep = replay(o, vals)
+        except Exception:
+            return False
+        if rep.get("outcome") == "raise" and str(rep.get("observed", "")).startswith(type(out.exc).__name__):
+            return True
+        if rep.get("outcome") != "precondition-not-met":
+            return False
+    return False
 
 
 def second_solver(smt2_text, timeout_s=30):
@@ -851,6 +869,14 @@ def run_obligation(o, timeout_ms=20000, max_paths=4096, second=False):
             try:
                 if out.kind == "return":
                     goals = o.post(S, inp, out.value)
+                elif out.kind == "raise" and o.raises is None and not _raise_confirmed(o, E, G, out):
+                    # an exception that the real code does not raise on the corresponding concrete input comes from a
+                    # limitation of the shim (signature, unsupported idiom): undecided, never a violation
+                    g = GoalResult("unsupported", "unknown", 0, path=pid,
+                                   note="exception under shadow execution not reproduced on the real code: %s: %s" % (type(out.exc).__name__, str(out.exc)[:200]))
+                    undecided.append(g)
+                    res.goals.append(g)
+                    continue
                 elif out.kind in ("abort", "raise"):
                     if o.raises is not None:
                         goals = o.raises(S, inp, out)
